@@ -78,6 +78,7 @@ def map_scenario(sc):
     spawned = set(); early_recv = {}     # handler -> LRecv labels already emitted at the emit stamp
     loop_pc = {}; late_emit = {}; unspawned_emit = {}
     pending_hc_ctx = set()
+    received = {(x.get('k') or ['', ''])[1] for x in evs if x['p'] == 'router.handler.received'}; recv_done = set(); recv_late = set()
     consumed = set()     # seq of add.signalled events already emitted (hand-off at the earlier stamp)
     pending_hc = set(); pending_pubclose = {}
     pending_closing = []     # the closer's "closed=true; close(closingInProgressCh)" step, placed as late as the log allows
@@ -103,6 +104,12 @@ def map_scenario(sc):
         p, k, g, seq = e['p'], e.get('k') or [], e['g'], e['seq']
         if pending_closing and p in PROOF:
             lab(pending_closing.pop())
+        if p == 'router.handler.received':
+            # the loop took a message (by UUID: the decorator pump may drop one that it holds when the context ends)
+            h = hnum(k[0])
+            if k[1] in recv_done: recv_done.discard(k[1])
+            else: lab('LRecv %d' % h); recv_late.add(k[1])
+            continue
         if p.startswith('router.handler.handleclose.'):
             continue
         if p.startswith('api.'):
@@ -145,10 +152,9 @@ def map_scenario(sc):
                 call.pop(g, None); m.hist.append(('ACloseRet %d %s' % (int(k[0]), b(k[1])), e))
             elif w == 'emit':
                 h = int(k[0])
-                if late_emit.get(h, 0) > 0: late_emit[h] -= 1          # the receiver stamped first
-                elif h in spawned:
-                    lab('LRecv %d' % h); early_recv[h] = early_recv.get(h, 0) + 1
-                else: unspawned_emit[h] = unspawned_emit.get(h, 0) + 1
+                if k[1] in recv_late: recv_late.discard(k[1])          # the receiver stamped first
+                elif k[1] in received and h in spawned:                # hand-off at the earlier stamp
+                    lab('LRecv %d' % h); recv_done.add(k[1])
             elif w == 'processed':
                 h = int(k[0]) if k[0].isdigit() else -1
                 lab('LPublish %d' % h, ['AProcessed %d %s' % (h, b(k[1]))]); m.hist.append(('AProcessed %d %s' % (h, b(k[1])), e))
@@ -250,10 +256,7 @@ def map_scenario(sc):
             elif w in ('close.already', 'close.closed'): lab(x + ' CStep', ret)
             else: lab(x + ' CStep')
         elif w == 'loop.recv':
-            h = hnum(k[0])
-            if early_recv.get(h, 0) > 0: early_recv[h] -= 1
-            elif unspawned_emit.get(h, 0) > 0: unspawned_emit[h] -= 1; lab('LRecv %d' % h)
-            else: lab('LRecv %d' % h); late_emit[h] = late_emit.get(h, 0) + 1
+            pass        # see router.handler.received (same point, carries the message UUID)
         elif w == 'loop.range_done':
             h = hnum(k[0]); lab('LLoop %d' % h); loop_pc[h] = 'pubclose'
         elif w == 'loop.pub_close':
@@ -369,8 +372,8 @@ ASSUMPTIONS = [
     'data races are outside the model',
 ]
 
-RULE = ('lifecycle client programs on a real Router with scripted subscribers/publishers: 23 forced schedules (park rules at router.life.* hook points: Stop/Stopped right after Started(), empty start with the watcher held, '
-        'RunHandlers x4 held mid-loop, Stop before the goroutine is spawned, loop held before wg.Done, held handleClose, the RunHandlers of Run held until Running() is observed, cancel on an empty router, failing Subscribe, shared/unshared publishers, foreign context, second Run, calls before Run, Close x3), '
+RULE = ('lifecycle client programs on a real Router with scripted subscribers/publishers: 28 forced schedules (park rules at router.life.* hook points: Stop/Stopped right after Started(), empty start with the watcher held, '
+        'RunHandlers x4 held mid-loop, Stop before the goroutine is spawned, loop held before wg.Done, held handleClose, the RunHandlers of Run held until Running() is observed, cancel on an empty router, failing Subscribe, shared/unshared publishers, foreign context, second Run during / after self-close / after Close / after cancel / after a failed Run, Stop while another handler is inside a slow handler call with a third handler probed, calls before Run, Close x3), '
         'pause point x client action pairs on a fixed 3-handler program, and seeded random programs over the C10 grammar with seeded yields at every hook; '
         'non-trivial = at least 25 model labels replayed; distinct by program and sizes.')
 
